@@ -101,9 +101,13 @@ def _verify_cdf_params(
 
   if scaling_parameters is not None:
     try:
+      location_shape = location_parameters.shape
+      if not location_shape.is_fully_defined():
+        # Unknown batch size: only the dynamic shape can be broadcast to.
+        location_shape = tf.shape(location_parameters)
       _ = tf.broadcast_to(
           scaling_parameters,
-          location_parameters.shape,
+          location_shape,
           name="cdf_fn_try_broadcasting",
       )
     except Exception as err:
